@@ -546,6 +546,8 @@ func runC08(c *Ctx, r *Report) {
 	c08PoolNewFresh(c, r, "C08.R18")
 	c09R2(c, r, "C08.R19") // a client talks to its own association only: the table of associations belongs to one socket's loop and is keyed by the client address alone within it
 	c08AfterHandOff(c, r, "C08.R20")
+	c08PooledPeerUntouched(c, r, "C08.R21")
+	c08PooledPeerUntouched(c, r, "C08.R21")
 	c08QuicAddr(c, r, "C08.R11")
 	c09R6(c, r, "C08.R12")     // a UDP client never reads another client's datagram: queued datagram records do not alias
 	c17Handle(c, r, "C08.R10") // per-connection state of a handler (the throttle's own limiter) is built per connection, only the handler-wide limiter is shared
@@ -1157,6 +1159,8 @@ func runC09(c *Ctx, r *Report) {
 	c05UDPWaits(c, r, "C09.R22")    // a wait that nothing but a datagram ends keeps the association (and its table entry) for ever
 	c09FreshAfterEnd(c, r, "C09.R23")
 	c09IdleTimerDrained(c, r, "C09.R24")
+	c09NoticeMeansEnd(c, r, "C09.R25")
+	c09NoticeMeansEnd(c, r, "C09.R25")
 	c05R7(c, r, "C09.R12")          // setting the deadline of a virtual connection never blocks (the association's handler, its queue and then the server loop would wait with it)
 	c05UDPDeadline(c, r, "C09.R13") // ... and arms the timer that wakes a waiting Read
 }
@@ -2004,6 +2008,8 @@ func runC13(c *Ctx, r *Report) {
 	defer c01R5(c, r, "C13.R19")               // prefetched bytes are replayed to the consumer: a handler that hands on a new connection builds it on the connection it was given (Wrap of a wrapper that reads through it), not on the raw socket below the matching buffer
 	defer c06R4(c, r, "C13.R20")               // ... and replayed unaltered: nothing a matcher does writes into the matching buffer (a view of it is only read)
 	defer c08AfterHandOff(c, r, "C13.R21") // the hand-over is clean: the handler that handed the connection on no longer touches it
+	defer c01R7(c, r, "C13.R22") // the consumer reads from the first unconsumed byte: a handler that built a reading wrapper on the connection hands on a connection that reads through it, whatever the header said
+	defer c01R7(c, r, "C13.R22") // the consumer reads from the first unconsumed byte: a handler that built a reading wrapper on the connection hands on a connection that reads through it, whatever the header said
 	// R1
 	r.rule("C13.R1", "ListenerWrapper.Provision compiles its routes with listenerHandler as fallback", 1)
 	if fn := c.Fn("layer4.(*ListenerWrapper).Provision"); fn != nil {
